@@ -1,12 +1,19 @@
 ------------------------------- MODULE Reader -------------------------------
-(* Model of the reading side of the Demuxer (demuxer.go:NextPacket,
-   packet_buffer.go:newPacketBuffer / autoDetectPacketSize / peek / rewind /
-   next) against an io.Reader that may return short reads.
+(* Model of the reading side of the Demuxer at the grain of one public call
+   (demuxer.go:NextPacket, packet_buffer.go:newPacketBuffer /
+   autoDetectPacketSize / peek / rewind / next) against an io.Reader that may
+   return short reads.
 
-   The input is NPK frames of S bytes (S in 188..192 for auto-detection) plus
-   EXTRA trailing bytes (a truncated last packet).  Reader kinds: "seek"
+   The input is npk frames of S bytes (S in 188..192 for auto-detection) plus
+   extra trailing bytes (a truncated last packet).  Reader kinds: "seek"
    (io.Seeker), "bufio" (a bufio.Reader, Peek), "plain" (neither).  A Read of n
    bytes returns any k in 1..n the schedule likes (Short = TRUE) or exactly n.
+
+   Call(c, s) is the set of [r, s] one NextPacket call may produce in state s
+   for input / reader configuration c: r = index of the frame returned, EOFv
+   (ErrNoMorePackets) or ERRv (any other error).  It is shared with the trace
+   specification Mon_Reader.tla, which validates every call recorded from the
+   real Demuxer (harness family `rmodel`).
 
    Deviations:
      "PeekSingleRead"    peek and the resync after detection use one Read call instead of io.ReadFull
@@ -14,67 +21,68 @@
                          returns ErrNoMorePackets
    With Dev = {} : SameAsFull (C08) and EndsInBoundedCalls / EOFAbsorbing (C03). *)
 EXTENDS Integers, Sequences, TLC
-CONSTANTS NPK, EXTRA, Sizes, Kinds, Short, Auto, Dev
-VARIABLES S, kind, pos, pb, out, calls, done, got      \* got: bytes the peek obtained (ghost of the detection step)
-vars == <<S, kind, pos, pb, out, calls, done, got>>
+CONSTANTS Sizes, Kinds, NPKS, EXTRAS, AUTOS, Short, Dev
+VARIABLES c,        \* the configuration [S, kind, npk, extra, auto] (constant along a behaviour)
+          s,        \* [pos, pb, done]: reader offset, packet buffer ("nil" | "ok" | "zero"), end reached
+          out, calls
+vars == <<c, s, out, calls>>
 HasDev(d) == d \in Dev
 EOFv == -2   \* ErrNoMorePackets
 ERRv == -3   \* any other error
-Total == NPK * S + EXTRA
-Init == /\ S \in Sizes /\ kind \in Kinds /\ pos = 0 /\ pb = "nil" /\ out = <<>> /\ calls = 0 /\ done = FALSE /\ got = 0
+Total(cf) == cf.npk * cf.S + cf.extra
 
 \* how many bytes a request of n bytes at offset p can obtain in ONE Read call
-OneRead(p, n) == LET avail == Total - p IN
-                 IF avail <= 0 THEN {0} ELSE IF Short THEN 1..(IF n < avail THEN n ELSE avail) ELSE {IF n < avail THEN n ELSE avail}
+OneRead(cf, p, n) == LET avail == Total(cf) - p IN
+                     IF avail <= 0 THEN {0} ELSE IF Short THEN 1..(IF n < avail THEN n ELSE avail) ELSE {IF n < avail THEN n ELSE avail}
 \* ... and with io.ReadFull / bufio.Peek (loops until n or end of input)
-FullRead(p, n) == LET avail == Total - p IN IF avail <= 0 THEN 0 ELSE IF n < avail THEN n ELSE avail
-
-Ret(r) == /\ out' = Append(out, r) /\ calls' = calls + 1
-
-\* NextPacket with no packet buffer yet and auto-detection requested
-Detect ==
-  /\ ~done /\ pb = "nil" /\ Auto
-  /\ \E g \in (IF kind = "bufio" \/ ~HasDev("PeekSingleRead") THEN {FullRead(pos, 193)} ELSE OneRead(pos, 193)) :
-       /\ got' = g
-       /\ IF g >= S + 1                                    \* both sync bytes seen: size detected
-          THEN \E sync \in (IF kind # "plain" THEN {0}
-                            ELSE IF HasDev("PeekSingleRead") THEN OneRead(pos + g, 2 * S - 193) ELSE {FullRead(pos + g, 2 * S - 193)}) :
-                 /\ pb' = "ok"
-                 /\ pos' = IF kind = "seek" THEN 0 ELSE IF kind = "bufio" THEN pos ELSE pos + g + sync
-                 /\ UNCHANGED <<out, calls, done>>         \* (the same NextPacket call goes on to read a packet: ReadPacket)
-          ELSE \* detection failed
-               IF g < 193 /\ ~HasDev("DetectErrNeverEOF") /\ (kind = "bufio" \/ ~HasDev("PeekSingleRead") \/ pos + g = Total)
-               THEN /\ Ret(EOFv) /\ done' = TRUE /\ pos' = (IF kind = "bufio" THEN pos ELSE pos + g) /\ UNCHANGED pb    \* input ended inside the first packets
-               ELSE /\ Ret(ERRv)
-                    /\ pb' = IF HasDev("DetectErrNeverEOF") THEN "zero" ELSE "nil"
-                    /\ pos' = (IF kind = "bufio" THEN pos ELSE pos + g) /\ UNCHANGED done
-  /\ UNCHANGED <<S, kind>>
-
-Explicit == /\ ~done /\ pb = "nil" /\ ~Auto /\ pb' = "ok" /\ UNCHANGED <<S, kind, pos, out, calls, done, got>>
+FullRead(cf, p, n) == LET avail == Total(cf) - p IN IF avail <= 0 THEN 0 ELSE IF n < avail THEN n ELSE avail
 
 \* packetBuffer.next: io.ReadFull of one frame
-ReadPacket ==
-  /\ ~done /\ pb = "ok"
-  /\ LET g == FullRead(pos, S) IN
-     IF g < S THEN /\ Ret(EOFv) /\ done' = TRUE /\ pos' = pos + g
-     ELSE /\ Ret(IF pos % S = 0 THEN pos \div S ELSE -1)   \* -1: a misaligned frame (garbage / sync error)
-          /\ pos' = pos + S /\ UNCHANGED done
-  /\ UNCHANGED <<S, kind, pb, got>>
+ReadPacket(cf, st) ==
+  LET g == FullRead(cf, st.pos, cf.S) IN
+  IF g < cf.S THEN [r |-> EOFv, s |-> [st EXCEPT !.done = TRUE, !.pos = st.pos + g]]
+  ELSE [r |-> (IF st.pos % cf.S = 0 THEN st.pos \div cf.S ELSE ERRv),      \* a misaligned frame does not start with a sync byte
+        s |-> [st EXCEPT !.pos = st.pos + cf.S]]
 
-\* the size-0 packet buffer left behind by a failed detection: every call fails, none ends
-ZeroBuffer == /\ ~done /\ pb = "zero" /\ calls < NPK + 6 /\ Ret(ERRv) /\ UNCHANGED <<S, kind, pos, pb, done, got>>
-AfterEOF == /\ done /\ calls < NPK + 6 /\ Ret(EOFv) /\ UNCHANGED <<S, kind, pos, pb, done, got>>
-Retry == FALSE
-Next == Detect \/ Explicit \/ ReadPacket \/ ZeroBuffer \/ AfterEOF
+\* NextPacket with no packet buffer yet and auto-detection requested: detection, then (when it succeeded) the first packet in the same call
+Detect(cf, st) ==
+  LET gs == IF cf.kind = "bufio" \/ ~HasDev("PeekSingleRead") THEN {FullRead(cf, st.pos, 193)} ELSE OneRead(cf, st.pos, 193)
+      syncs(g) == IF cf.kind # "plain" THEN {0}
+                  ELSE IF HasDev("PeekSingleRead") THEN OneRead(cf, st.pos + g, 2 * cf.S - 193) ELSE {FullRead(cf, st.pos + g, 2 * cf.S - 193)}
+      forG(g) ==
+        IF g >= cf.S + 1                                                            \* both sync bytes seen: size detected
+        THEN { ReadPacket(cf, [st EXCEPT !.pb = "ok",
+                                         !.pos = IF cf.kind = "seek" THEN 0 ELSE IF cf.kind = "bufio" THEN st.pos ELSE st.pos + g + sync])
+               : sync \in syncs(g) }
+        \* detection failed; what was looked at is consumed whatever the reader kind (a bufio.Reader is advanced by Discard)
+        ELSE IF g = 0 /\ ~HasDev("DetectErrNeverEOF")
+        THEN { [r |-> EOFv, s |-> [st EXCEPT !.done = TRUE]] }                      \* nothing left at all: the end of the input
+        ELSE { [r |-> ERRv, s |-> [st EXCEPT !.pb = (IF HasDev("DetectErrNeverEOF") THEN "zero" ELSE "nil"), !.pos = st.pos + g]] }
+                                                                                    \* (fewer than S+1 bytes with one sync byte: "only one sync byte")
+  IN UNION { forG(g) : g \in gs }
+
+\* one NextPacket call
+Call(cf, st) ==
+  IF st.done THEN { [r |-> EOFv, s |-> st] }                               \* the end is absorbing
+  ELSE IF st.pb = "zero" THEN { [r |-> ERRv, s |-> st] }                   \* the size-0 packet buffer left behind: every call fails, none ends
+  ELSE IF st.pb = "nil" THEN (IF cf.auto THEN Detect(cf, st) ELSE { ReadPacket(cf, [st EXCEPT !.pb = "ok"]) })
+  ELSE { ReadPacket(cf, st) }
+
+S0 == [pos |-> 0, pb |-> "nil", done |-> FALSE]
+Init == /\ c \in [S : Sizes, kind : Kinds, npk : NPKS, extra : EXTRAS, auto : AUTOS]
+        /\ s = S0 /\ out = <<>> /\ calls = 0
+Next == /\ calls < c.npk + 6
+        /\ \E x \in Call(c, s) : s' = x.s /\ out' = Append(out, x.r)
+        /\ calls' = calls + 1 /\ UNCHANGED c
 Spec == Init /\ [][Next]_vars
 
 Packets == SelectSeq(out, LAMBDA x : x \notin {EOFv, ERRv})
 \* C08: whatever the schedule, explicit size or auto-detection on a seekable / bufio reader returns every packet, in order;
 \* auto-detection on a plain reader returns the packets from the third on (documented loss), the same for every schedule
-SameAsFull == done => (IF Auto /\ NPK >= 2 /\ kind = "plain" THEN Packets = [i \in 1..(NPK - 2) |-> i + 1]
-                        ELSE IF Auto /\ NPK < 2 THEN TRUE
-                        ELSE Packets = [i \in 1..NPK |-> i - 1])
-\* C03: the end of the input is reached within NPK + 2 calls and is absorbing
-EndsInBoundedCalls == calls > NPK + 2 => done
+SameAsFull == s.done => (IF c.auto /\ c.npk >= 2 /\ c.kind = "plain" THEN Packets = [i \in 1..(c.npk - 2) |-> i + 1]
+                          ELSE IF c.auto /\ c.npk < 2 THEN TRUE
+                          ELSE Packets = [i \in 1..c.npk |-> i - 1])
+\* C03: the end of the input is reached within npk + 2 calls and is absorbing
+EndsInBoundedCalls == calls > c.npk + 2 => s.done
 EOFAbsorbing == \A i \in DOMAIN out : out[i] = EOFv => \A j \in i..Len(out) : out[j] = EOFv
 =============================================================================
